@@ -22,6 +22,44 @@ func (x *Exec) stdlib(fr *Frame, ins ssa.Instruction, fn *ssa.Function, args []V
 		sb := x.bytesToStr(st, args[1].(*Term))
 		lt := x.strLt(sa, sb)
 		return ts.Ite(lt, ts.BV(^uint64(0), 64), ts.Ite(ts.Eq(sa, sb), ts.BV(0, 64), ts.BV(1, 64))), true
+	case "sort.Search":
+		// r := sort.Search(n, f): f is called only with 0 <= i < n; on return
+		// 0 <= r <= n, (r < n ==> f(r)) and (r > 0 ==> !f(r-1)). (The stronger
+		// "smallest index" reading needs f monotone and is left to the caller's contract.)
+		x.note("trusted: sort.Search(n, f) calls f only inside [0,n) and returns r in [0,n] with f(r) (if r<n) and !f(r-1) (if r>0)")
+		n := args[0].(*Term)
+		apply := func(i *Term, sub *State) *Term {
+			var res []Value
+			var nst *State
+			switch f := args[1].(type) {
+			case *Closure:
+				res, nst = x.callFunction(f.fn, []Value{i}, f.bindings, sub)
+			case *FuncRef:
+				res, nst = x.callFunction(f.fn, []Value{i}, nil, sub)
+			default:
+				unsup("sort.Search with a dynamic function value")
+			}
+			if nst == nil {
+				unsup("sort.Search predicate does not return")
+			}
+			return res[0].(*Term)
+		}
+		// safety of the predicate for an arbitrary index in range
+		ai := x.w.Fresh("search_i", SBV(64))
+		sub := st.clone()
+		sub.guard = ts.And(st.guard, x.w.bvsle(ts.BV(0, 64), ai), x.w.bvslt(ai, n))
+		apply(ai, sub)
+		r := x.w.Fresh("search_r", SBV(64))
+		x.assumeIn(st, ts.And(x.w.bvsle(ts.BV(0, 64), r), x.w.bvsle(r, n)))
+		x.specDepth++
+		s1 := st.clone()
+		fr1 := apply(r, s1)
+		s2 := st.clone()
+		fr2 := apply(x.bvOp("bvsub", r, ts.BV(1, 64)), s2)
+		x.specDepth--
+		x.assumeIn(st, ts.Implies(x.w.bvslt(r, n), fr1))
+		x.assumeIn(st, ts.Implies(x.w.bvslt(ts.BV(0, 64), r), ts.Not(fr2)))
+		return r, true
 	case "math.IsNaN":
 		return ts.App("fp.isNaN", SBool, args[0].(*Term)), true
 	case "math.IsInf":
